@@ -1399,7 +1399,7 @@ theorem iterStep_ok (step : List EProd → StepRes) (Inv : List EProd → Prop)
     simp only [iterStep] at h
     split at h
     · rename_i hu
-      simp only [Res.ok.injEq, Prod.mk.injEq] at h
+      simp only [CRes.ok.injEq, Prod.mk.injEq] at h
       obtain ⟨rfl, rfl⟩ := h
       exact ⟨StepOK.refl _, hi, hu⟩
     · rename_i ps1 hc
@@ -1409,7 +1409,7 @@ theorem iterStep_ok (step : List EProd → StepRes) (Inv : List EProd → Prop)
     · cases h
     · cases h
 
-theorem Res.bind_ok {α β} {r : Res α} {f : α → Res β} {b : β} (h : r.bind f = .ok b) :
+theorem CRes.bind_ok {α β} {r : CRes α} {f : α → CRes β} {b : β} (h : r.bind f = .ok b) :
     ∃ a, r = .ok a ∧ f a = .ok b := by
   cases r with
   | ok a => exact ⟨a, rfl, h⟩
@@ -1419,9 +1419,9 @@ theorem Res.bind_ok {α β} {r : Res α} {f : α → Res β} {b : β} (h : r.bin
 theorem pass_ok {ty : GType} {fuel : Nat} {ps ps' : List EProd} {m : Bool}
     (hn : NoOpt ps) (h : pass ty fuel ps = .ok (ps', m)) : StepOK ps ps' ∧ NoOpt ps' := by
   unfold pass at h
-  obtain ⟨⟨ps1, m1⟩, h1, h⟩ := Res.bind_ok h
-  obtain ⟨⟨ps2, m2⟩, h2, h⟩ := Res.bind_ok h
-  obtain ⟨⟨ps3, m3⟩, h3, h⟩ := Res.bind_ok h
+  obtain ⟨⟨ps1, m1⟩, h1, h⟩ := CRes.bind_ok h
+  obtain ⟨⟨ps2, m2⟩, h2, h⟩ := CRes.bind_ok h
+  obtain ⟨⟨ps3, m3⟩, h3, h⟩ := CRes.bind_ok h
   simp only at h
   obtain ⟨s1, n1, _⟩ := iterStep_ok sepStep NoOpt
     (fun a b ha hc => ⟨sepStep_ok hc, sepStep_noOpt hc ha⟩) _ _ _ _ _ hn h1
